@@ -479,6 +479,17 @@ def build():
     one(r"Opt::RTYPE\s*=>", macros, "Opt arm of parse_any_rdata")
     all_types.append(codes["OPT"])
     one(r"_ =>\s*\{\s*Ok\(AllRecordData::Unknown\(\s*UnknownRecordData::parse_any_rdata\(", macros, "Unknown fallback of parse_any_rdata")
+    # AllRecordData / ZoneRecordData ==: which of the two variants that the macro adds itself
+    # (Opt, Unknown) have a match arm (everything else falls to `_ => false`)
+    def eq_arms(enum):
+        hdr = one(r"impl<O, OO, N, NN> PartialEq<" + enum + r"<OO, NN>>\s*for " + enum + r"<O, N>", macros, enum + " PartialEq impl")
+        body = fn_body(macros[hdr.end():], "eq")
+        one(r"(?:\(_, _\)|_)\s*=>\s*false", body, enum + "::eq fallback arm")
+        def arm(var):
+            return re.search(r"&" + enum + r"::" + var + r"\(ref \w+\),\s*&" + enum + r"::" + var + r"\(ref \w+\)\s*\)\s*=>\s*\{\s*\w+\.eq\(\w+\)", body) is not None
+        return arm("Opt"), arm("Unknown")
+    all_opt, all_unk = eq_arms("AllRecordData")
+    _, zone_unk = eq_arms("ZoneRecordData")
     rows.sort()
     parse_rows.sort()
 
@@ -493,6 +504,10 @@ def build():
     L.append(("lower_types_src", "list N", nl(sorted(lower_types))))
     L.append(("name_types_src", "list N", nl(sorted(name_types))))
     L.append(("all_types_src", "list N", nl(sorted(all_types))))
+    b = lambda x: "true" if x else "false"
+    L.append(("all_eq_has_opt_arm", "bool", b(all_opt)))
+    L.append(("all_eq_has_unknown_arm", "bool", b(all_unk)))
+    L.append(("zone_eq_has_unknown_arm", "bool", b(zone_unk)))
     return L
 
 
